@@ -54,11 +54,14 @@ class Report:
 
 
 class Ctx:
-    def __init__(self, tier):
+    def __init__(self, tier, config=None):
         self.tier = tier
         self._facts = {}
+        self.config = config        # thorough tier: the build configuration that stands in for "default"
 
     def facts(self, config="default", names=None):
+        if config == "default" and self.config:
+            config = self.config
         k = (config, tuple(names) if names else None)
         if k not in self._facts:
             d = os.environ.get("VERIF_FACTS_DIR") if config == "default" else None
